@@ -1,10 +1,5 @@
-(* Line protocol: one request per line, TAB-separated fields, first field the
-   op name; one response line per request.  Strings travel hex-encoded. *)
-let handlers : (string, string list -> string) Hashtbl.t = Hashtbl.create 32
-let register name f = Hashtbl.replace handlers name f
-
+(* Number conversions for ONE extracted module; the build prepends `open Mdl_<family>`. *)
 (* ---- conversions between OCaml and the extracted inductive numbers ---- *)
-open Mdl
 
 let rec pos_of_int (n : int) : positive =
   if n = 1 then XH else if n land 1 = 0 then XO (pos_of_int (n lsr 1)) else XI (pos_of_int (n lsr 1))
@@ -43,13 +38,6 @@ let string_of_z = function
   | Z0 -> "0"
   | Zpos p -> string_of_pos p
   | Zneg p -> "-" ^ string_of_pos p
-
-let unhex (h : string) : string =
-  if h = "-" then "" else
-    String.init (String.length h / 2) (fun i -> Char.chr (int_of_string ("0x" ^ String.sub h (2 * i) 2)))
-
-let hex (s : string) : string =
-  if s = "" then "-" else String.concat "" (List.map (fun c -> Printf.sprintf "%02x" (Char.code c)) (List.of_seq (String.to_seq s)))
 
 let bytes_of_string (s : string) : n list = List.map (fun c -> n_of_int (Char.code c)) (List.of_seq (String.to_seq s))
 let string_of_bytes (l : n list) : string = String.concat "" (List.map (fun b -> String.make 1 (Char.chr (int_of_n b))) l)
